@@ -149,11 +149,12 @@ type SrvMonitor struct {
 	lastAt    map[string]int64
 	bad       map[string]bool // identities that broke the consistency hypothesis (several ids per hardware address)
 	idOfMac   map[string]string
+	macOfID   map[string]string
 	respTable map[uint32]*Responder
 }
 
 func NewSrvMonitor(c *SrvConf, s *Stream, cfgLine string) *SrvMonitor {
-	return &SrvMonitor{c: c, s: s, cfgLine: cfgLine, lastRep: map[string]*Reply{}, lastAt: map[string]int64{}, bad: map[string]bool{}, idOfMac: map[string]string{}}
+	return &SrvMonitor{c: c, s: s, cfgLine: cfgLine, lastRep: map[string]*Reply{}, lastAt: map[string]int64{}, bad: map[string]bool{}, idOfMac: map[string]string{}, macOfID: map[string]string{}}
 }
 
 func (m *SrvMonitor) fail(prop, sig, what, observed string) {
@@ -251,6 +252,14 @@ func (m *SrvMonitor) Step(trx int64, frame []byte, obs Obs, op string) {
 		m.bad[prev], m.bad[id] = true, true // this hardware address does not use one identity consistently
 	}
 	m.idOfMac[macs] = id
+	// a client identifier the server does not key on (shorter than four bytes, or in its internal namespace)
+	// sent by several hardware addresses: by the gloss one client, for the server several — outside the hypothesis
+	if q.HasCid && (len(q.Cid) < 4 || bytes.HasPrefix(q.Cid, []byte{0, 3, 0, 0})) {
+		if prev, ok := m.macOfID[id]; ok && prev != macs {
+			m.bad[id] = true
+		}
+		m.macOfID[id] = macs
+	}
 	consistent := !m.bad[id]
 	isSelfMac := bytes.Equal(q.Chaddr, c.SelfMAC)
 	dstB := q.Dst.Equal(net.IPv4bcast)
